@@ -35,6 +35,8 @@ type BatchCase struct {
 	// HoldFirst: the first HoldFirst chunk results ready for the reducer are held back until a later one is ready too
 	// (the reducer does not have to see results in completion order; steered at the verif hook point amr.worker.sendRes)
 	HoldFirst int `json:"hold_first,omitempty"`
+	// Mutations: the requests are mutations (sub-requests of mutation root steps go through the same path)
+	Mutations bool `json:"mutations,omitempty"`
 }
 
 type parkedCall struct {
@@ -202,7 +204,11 @@ func checkC11(c *BatchCase) *ev.Failure {
 		if isFile[i] {
 			vars["file"] = &requests.Upload{File: io.NopCloser(strings.NewReader(fmt.Sprintf("content-%d", i))), FileName: fmt.Sprintf("f%d.txt", i)}
 		}
-		inputs[i] = &requests.Request{Query: fmt.Sprintf("query Q%d($tok: Int) { echo(tok: $tok) }", i), Variables: vars}
+		kw := "query Q"
+		if c.Mutations {
+			kw = "mutation M"
+		}
+		inputs[i] = &requests.Request{Query: fmt.Sprintf("%s%d($tok: Int) { echo(tok: $tok) }", kw, i), Variables: vars}
 	}
 	type out struct {
 		res []map[string]interface{}
@@ -342,6 +348,9 @@ func c11Labels(c *BatchCase) []string {
 	if c.HoldFirst > 0 {
 		l = append(l, "firstResultsHeld")
 	}
+	if c.Mutations {
+		l = append(l, "mutations")
+	}
 	return l
 }
 
@@ -373,6 +382,7 @@ func TestC11(t *testing.T) {
 			}
 			sort.Ints(c.Files)
 		}
+		c.Mutations = rapid.IntRange(0, 3).Draw(t, "mutations") == 0
 		if c.N > c.M && rapid.IntRange(0, 3).Draw(t, "hold") == 0 {
 			c.HoldFirst = rapid.IntRange(1, 2).Draw(t, "holdfirst")
 		}
